@@ -74,3 +74,31 @@ def simple_doc(rng, uri, extra_uris=(), n_nodes=3, with_models=True, with_aliase
                           required=[[("ModelUri", UA), ("Version", "1.04"), ("PublicationDate", "2019-01-01T00:00:00Z")]])] if with_models else None,
              aliases=aliases if with_aliases else None, nodes=nodes)
     return d
+
+
+import re as _re
+def entityfy(text, rng, max_refs=6):
+    """the same document spelled with general entities declared in its own internal DTD subset (same infoset; a reader must expand them).
+    Only element TEXT without any other reference is touched; returns the text unchanged when nothing suitable is found."""
+    if "<!DOCTYPE" in text or not text.startswith("<?xml"): return text
+    segs = list(_re.finditer(r">([^<>&]+)<", text))
+    cands = [m for m in segs if m.group(1).strip()]
+    if not cands: return text
+    rng.shuffle(cands)
+    ents = {}; repl = []
+    for m in cands[:max_refs]:
+        body = m.group(1); core = body.strip()
+        # a piece of the text: the whole of it, its head, its middle or its tail
+        a = rng.randrange(len(core)); b = rng.randint(a + 1, len(core))
+        if rng.random() < 0.3: a, b = 0, len(core)
+        piece = core[a:b]
+        if not piece or '"' in piece or "%" in piece: continue
+        name = ents.setdefault(piece, "e%d" % len(ents))
+        off = m.start(1) + body.index(core)
+        repl.append((off + a, off + b, "&%s;" % name))
+    if not repl: return text
+    out = text
+    for a, b, r in sorted(repl, reverse=True): out = out[:a] + r + out[b:]
+    decl = "<!DOCTYPE UANodeSet [" + "".join('<!ENTITY %s "%s">' % (n, p) for p, n in ents.items()) + "]>"
+    i = out.index("?>") + 2
+    return out[:i] + "\n" + decl + out[i:]
